@@ -335,8 +335,13 @@ class Pacing:
         if k in ("sleep", "prebuild"):
             return True
         if k.startswith("ext_"):
-            # the contents of a directory that has just left the tree are not touched before the stream drained
-            return op[1] not in self.out_blocked and not (k == "ext_rename" and op[2] in self.out_blocked)
+            # the contents of a directory that has just left the tree are not touched before the stream drained; the
+            # directory itself may be renamed out there, or removed if it is empty - that touches no contents
+            if k == "ext_rename":
+                return op[2] not in self.out_blocked
+            if k == "ext_rmtree" and op[1] in self.out_blocked:
+                return len(model.out.get(op[1], {})) <= 1
+            return op[1] not in self.out_blocked
         # (a directory that has just left may come straight back under another name: that neither touches its contents
         # nor re-uses one of its names; its old name and its contents stay blocked for the rest of the burst)
         paths = [x for x in op[1:3] if isinstance(x, str)]
@@ -376,6 +381,8 @@ class Pacing:
         elif k == "move_in" and model_before.out[op[1]][""][0] == "d":
             self.blocked.add(op[2])
             self.arrived.add(op[2])
+        elif k == "ext_rename" and op[1] in self.out_blocked:
+            self.out_blocked.add(op[2])  # the same directory under its new name out there
 
 
 class NoPacing(Pacing):
